@@ -119,9 +119,12 @@ func intLit(e ast.Expr) *big.Int {
 		}
 	case *ast.ParenExpr:
 		return intLit(v.X)
-	case *ast.CallExpr: // uint64(28)
-		if len(v.Args) == 1 {
-			return intLit(v.Args[0])
+	case *ast.CallExpr: // uint64(28): only a conversion to a predeclared integer type is transparent
+		if id, ok := v.Fun.(*ast.Ident); ok && len(v.Args) == 1 {
+			switch id.Name {
+			case "uint64", "uint", "int", "int64", "uint32", "uint8":
+				return intLit(v.Args[0])
+			}
 		}
 	}
 	die("expected integer literal, got %s", src(e))
